@@ -839,6 +839,8 @@ fn add_primary_to_secoundary(
         sender: Some(sender.clone()),
     });
     let tcp_addr = tcp_addr.clone();
+    #[cfg(nundb_verif)]
+    crate::verif_hooks::link_spawned();
     let guard = thread::spawn(move || {
         start_replication(name, receiver, user, pwd, tcp_addr.to_string(), false, &dbs);
     });
@@ -863,6 +865,8 @@ fn add_secondary_to_primary(
 
     let tcp_addr = tcp_addr.clone();
     let dbs = dbs.clone();
+    #[cfg(nundb_verif)]
+    crate::verif_hooks::link_spawned();
     let guard = thread::spawn(move || {
         start_replication(
             name.clone(),
@@ -901,6 +905,8 @@ fn add_secondary_to_secoundary(
     let tcp_addr = tcp_addr.clone();
     // let dbs = dbs.clone();
 
+    #[cfg(nundb_verif)]
+    crate::verif_hooks::link_spawned();
     let guard = thread::spawn(move || {
         start_replication(
             name.clone(),
